@@ -10,7 +10,7 @@ PROP = "C16"
 
 USE_CACHE = ["omitted", "true", "false"]
 STRUCT = ["omitted", "true", "false"]
-EXTS = ["omitted", "rs", "rs+x", "x"]      # (an explicit empty list is an error exit, below)
+EXTS = ["omitted", "rs", "rs+x", "x", "rs+x+rs"]      # the last one lists an extension twice: same meaning as rs+x      # (an explicit empty list is an error exit, below)
 LOCK = ["absent", "valid_ahead", "corrupt", "empty", "out_of_range", "negative", "float", "conflict_markers", "line_plus_junk", "nested_key",
         # a scratch copy of the lock left behind by a killed run is not the lock: same expectations as without it
         "absent+stale_scratch", "valid_ahead+stale_scratch",
@@ -55,7 +55,7 @@ def expected(p):
     LOCKVAL = p[6] if len(p) > 6 else 1000
     cache = uc != "false"
     structured = st == "true"
-    exts = {"omitted": ["rs"], "rs": ["rs"], "rs+x": ["rs", "x"], "x": ["x"]}[ex]
+    exts = {"omitted": ["rs"], "rs": ["rs"], "rs+x": ["rs", "x"], "x": ["x"], "rs+x+rs": ["rs", "x"]}[ex]
     files = FILES_MISSING if tree == "missing" else FILES_NONE
     scope = sorted(r for r in files if r.rsplit(".", 1)[-1] in exts)
     nmiss = 0
@@ -78,7 +78,7 @@ def config_text(p, source_dir="src"):
     return core.make_config(source_dir=source_dir,
                             use_cache=None if uc == "omitted" else (uc == "true"),
                             structured=None if st == "omitted" else (st == "true"),
-                            extensions=None if ex == "omitted" else {"rs": ["rs"], "rs+x": ["rs", "x"], "x": ["x"]}[ex])
+                            extensions=None if ex == "omitted" else {"rs": ["rs"], "rs+x": ["rs", "x"], "x": ["x"], "rs+x+rs": ["rs", "x", "rs"]}[ex])
 
 
 def run_point(built, p, cfgform="absolute"):
